@@ -8,6 +8,18 @@ NOTE_COMMON = ("Trusted base: go/packages + go/types + go/ssa of golang.org/x/to
                "so a large refactoring can raise an alarm although behaviour is preserved.")
 
 claimed = {
+ "C08": dict(
+   text="Decides the framing, cipher and template-structure clauses of the Type 1 writer: PFB event sequence with little-endian lengths taken from the filled buffer; eexec and charstring encryption constants and ciphertext-feedback data flow; four lead bytes whose first cipher byte (evaluated as a constant) is neither white space nor hexadecimal; lead-byte search acceptance sets; no /lenIV; required dictionary keys; RD/ND/NP definitions before use; length-prefixed binary strings; eexec/closefile/trailer switching under one condition; explicit encoding lists every entry but .notdef; PDF lengths read from one byte counter at the right points; no narrowing below 32 bits on the way to the number encoder. Decodability by an independent implementation is not decided.",
+   technique="static analysis: parsed font template (text/template/parse, not executed), AST event-sequence matching of the PFB branch, canonical symbolic terms for the ciphers, byte-domain evaluation, go/ssa dominance for the length counters",
+   ref="DESIGN.md §5 C08"),
+ "C09": dict(
+   text="Decides key/field symmetry of the write→read round trip: template table (key → field → escape → condition) against reader table (key → accepted types → destination field); same font field on both sides; elision windows = reader defaults (BlueScale ±1e-6); date layout accepted by the reader with seconds and zone; writer string escaping ⊆ reader scanning over all 512 cases; decision table of the StandardEncoding shortcut; explicit encoding; escaping of every string in the template; position tracking of the path encoder. Equality of the fonts is not decided.",
+   technique="static analysis: parsed template vs AST-extracted reader tables, decision-table extraction, byte-domain evaluation, AST def-use rule",
+   ref="DESIGN.md §5 C09"),
+ "C10": dict(
+   text="Decides structural clauses of read→write→read closure: provenance of every data→Name conversion in the interpreter (regular characters or look-up only), exhaustive path-command switches and GlyphOp arities, escaping of every string field of the template, the complete list of rounding calls and of explicit panics reachable from the writers, default-elision windows, position tracking. Equality under tolerance and second-cycle idempotence are not decided.",
+   technique="static analysis: go/ssa def-use classification of conversions, call-graph reachability for rounding/panic sites, parsed template",
+   ref="DESIGN.md §5 C10"),
  "C15": dict(
    text="Decides the field- and keyword-symmetry clauses of the AFM round trip: fields stored by the reader = fields loaded by the writer and the query methods it calls; every data keyword the writer emits is handled by the reader, connected to the same field, with a numeric verb the reader's parser accepts; all format strings are constants; glyph lines are parsed key by key without layout filters and header lines by their first word. Equality of metrics and second-cycle idempotence are not decided.",
    technique="static analysis: go/ssa field store/load sets over the call graph, AST extraction of the writer's (keyword, verb, field) and the reader's (keyword, field, parser) tables and their comparison",
